@@ -140,13 +140,13 @@ Definition kind_of (f : fres) : fkind := match f with FOk => KOk | FErr => KErr 
 Definition bobs_of (b : backend) : bobs :=
   {| ob_host := b_host b; ob_method := b_method b; ob_url := b_url b; ob_keys := b_keys b;
      ob_dec := b_dec b; ob_timeout := b_timeout b; ob_cc := b_cc b; ob_hdrs := b_hdrs b |}.
-Definition eobs_of (e : endpoint) : eobs :=
+Definition eobs_of (readable : string -> bool) (e : endpoint) : eobs :=
   {| oe_method := e_method e; oe_timeout := e_timeout e; oe_cc := e_cc e; oe_hdrs := e_hdrs e;
-     oe_backends := map bobs_of (e_backends e); oe_factory := kind_of (factory_new e) |}.
+     oe_backends := map bobs_of (e_backends e); oe_factory := kind_of (factory_new readable e) |}.
 (* what the model predicts the harness sees: Parse, then DefaultFactory.New per endpoint *)
-Definition obs_of (r : result svc) : obs :=
+Definition obs_of (readable : string -> bool) (r : result svc) : obs :=
   match r with
-  | Ok c => OOk (map eobs_of (s_endpoints c))
+  | Ok c => OOk (map (eobs_of readable) (s_endpoints c))
   | Err _ => OErr
   | Panic _ => OPanic
   end.
